@@ -97,6 +97,44 @@ def _only_logged(fn, sub):
     return bool(uses) and all(inside_logging(n) for n in uses)
 
 
+def _options_table(prog, fi, e, depth=0):
+    """the dict display an options expression denotes: a display, dict(<display>), a name bound once (in the function or an enclosing
+    one) to such, self.<ATTR> bound once in the class body to a display; None if it cannot be established"""
+    if depth > 4:
+        return None
+    if isinstance(e, ast.Dict):
+        return e if all(isinstance(k, ast.Constant) and isinstance(k.value, str) for k in e.keys) else None
+    if isinstance(e, ast.Call) and isinstance(e.func, ast.Name) and e.func.id == "dict" and len(e.args) == 1 and not e.keywords:
+        return _options_table(prog, fi, e.args[0], depth + 1)
+    if isinstance(e, ast.Name):
+        f = fi
+        while f is not None:
+            binds = [st for st in ast.walk(f.node) if isinstance(st, ast.Assign) and any(isinstance(t, ast.Name) and t.id == e.id for t in st.targets)]
+            muts = [x for x in ast.walk(f.node) if (isinstance(x, ast.Subscript) and isinstance(x.ctx, (ast.Store, ast.Del)) and dump(x.value) == e.id) or
+                    (isinstance(x, ast.Call) and isinstance(x.func, ast.Attribute) and dump(x.func.value) == e.id and
+                     x.func.attr in ("update", "pop", "setdefault", "clear", "popitem"))]
+            if muts:
+                return None
+            if len(binds) == 1:
+                return _options_table(prog, f, binds[0].value, depth + 1)
+            if binds:
+                return None
+            f = getattr(f, "outer", None)
+        return None
+    if isinstance(e, ast.Attribute) and isinstance(e.value, ast.Name) and e.value.id == "self":
+        f = fi
+        while f is not None and f.cls is None:
+            f = getattr(f, "outer", None)
+        if f is None:
+            return None
+        binds = [st for st in f.cls.node.body if isinstance(st, ast.Assign) and any(isinstance(t, ast.Name) and t.id == e.attr for t in st.targets)]
+        stores = [x for fn_ in prog.funcs.values() for x in ast.walk(fn_.node)
+                  if isinstance(x, (ast.Attribute, ast.Subscript)) and isinstance(x.ctx, (ast.Store, ast.Del)) and e.attr in dump(x)]
+        if len(binds) == 1 and not stores:
+            return _options_table(prog, fi, binds[0].value, depth + 1)
+    return None
+
+
 def check(ck):
     prog = ck.prog
     from vlib import narrow
@@ -184,7 +222,22 @@ def check(ck):
         if node.id in early:
             answered = True
         return [(facts, (cnt, answered))]
-    ex = Explorer(gp, on_node=on_node, init_data=(0, False))
+    # a failure of end_headers() (which flushes the header block) or of wfile.write(<bytes>) is an I/O failure of the connection:
+    # whatever a handler emits afterwards goes to the same dead connection and is not a second reply anybody receives
+    def _bytes_arg(n_, c_):
+        if len(c_.args) != 1 or c_.keywords:
+            return False
+        return all(a[0] == "call" and (a[1] == ("name", "utils.to_bytes") or (a[1][0] == "attr" and a[1][2] in ("encode", "to_bytes")) or
+                                       (a[1][0] == "name" and str(a[1][1]).endswith("to_bytes")))
+                   or (a[0] == "const" and isinstance(a[1], bytes))
+                   for a in prov.value_alts(prov.origin(gp, n_, c_.args[0])))
+    io_only = set()
+    for n in gp.live_nodes():
+        cs = node_calls(n)
+        if cs and all(call_name(c) == "end_headers" or (dump(c.func) in ("self.wfile.write", "self.wfile.flush") and (not c.args or _bytes_arg(n, c)))
+                      for c in cs if not (isinstance(c.func, ast.Name) and c.func.id in ("len", "str"))):
+            io_only.add(n.id)
+    ex = Explorer(gp, on_node=on_node, init_data=(0, False), edge_filter=lambda a_, b_, l_: not (l_ == "exc" and a_ in io_only))
     seen = set()
     for st in states_at(ex, ("return",)):
         nid, facts, (cnt, answered) = st
@@ -258,12 +311,45 @@ def check(ck):
     # utils.to_bytes(response) in do_POST (outside its catch-all) and response.encode() in the CGI handler are total only
     # because the default JSON backend escapes every non-ASCII character: json.dumps must keep ensure_ascii (default True).
     n6 = 0
+    # (code under `if PYTHON_2:` / `if sys.version_info[0] < 3:` does not run on the interpreter the properties are stated for)
+    py2 = set()
     for fi in prog.module_funcs("jsonlib"):
-        for c in [x for x in ast.walk(fi.node) if isinstance(x, ast.Call) and dump(x.func) == "json.dumps"]:
+        for st in ast.walk(fi.node):
+            if isinstance(st, ast.If) and (dump(st.test) == "PYTHON_2" or ("version_info" in dump(st.test) and isinstance(st.test, ast.Compare) and
+                                                                         isinstance(st.test.ops[0], ast.Lt) and dump(st.test.comparators[0]).startswith(("3", "(3")))):
+                for b in st.body:
+                    py2.update(id(x) for x in ast.walk(b))
+    for fi in prog.module_funcs("jsonlib"):
+        for c in [x for x in ast.walk(fi.node) if isinstance(x, ast.Call) and dump(x.func) == "json.dumps" and id(x) not in py2]:
             n6 += 1
+            if any(k.arg is None for k in c.keywords):
+                # json.dumps(obj, **options): the options table is resolved (a dict display bound once, possibly a class attribute
+                # copied with dict(...)); what cannot be resolved is refused, not guessed
+                resolved = []
+                for k in c.keywords:
+                    if k.arg is not None:
+                        resolved.append(k)
+                        continue
+                    dd = _options_table(prog, fi, k.value)
+                    if dd is None:
+                        raise AnalysisError("the options of `%s` in %s come from a table that cannot be resolved: not modelled" % (dump(c)[:50], q.fn(fi)))
+                    resolved += [ast.keyword(arg=kk.value, value=vv) for (kk, vv) in zip(dd.keys, dd.values)]
+                c = ast.copy_location(ast.Call(func=c.func, args=c.args, keywords=resolved), c)
             ea = [k for k in c.keywords if k.arg == "ensure_ascii"]
             okk = not ea or (isinstance(ea[0].value, ast.Constant) and ea[0].value.value is True)
-            other = [k.arg for k in c.keywords if k.arg not in ("ensure_ascii", "separators", "indent")]
+            # options left at (or spelled out with) their default value, a layout option, or a `default=` hook - which is only consulted for
+            # values the backend would otherwise refuse - change nothing a property speaks about
+            def _harmless(k):
+                if k.arg in ("ensure_ascii", "separators", "indent", "default"):
+                    return True
+                if k.arg in ("allow_nan", "check_circular"):
+                    return isinstance(k.value, ast.Constant) and k.value.value is True
+                if k.arg in ("sort_keys", "skipkeys"):
+                    return isinstance(k.value, ast.Constant) and k.value.value is False
+                if k.arg == "cls":
+                    return isinstance(k.value, ast.Constant) and k.value.value is None
+                return False
+            other = [k.arg for k in c.keywords if not _harmless(k)]
             ck.require(not other and len(c.args) == 1, "C02.6", "%s: `%s` options" % (q.fn(fi), dump(c)), "json.dumps(obj) with default behaviour",
                        "the default backend is called with %s: options such as sort_keys / skipkeys / default / allow_nan / cls change which replies "
                        "can be serialised (sort_keys=True fails on a result dictionary with keys of mixed types, after the per-request conversion "
